@@ -556,7 +556,7 @@ func endKind(c cfg, err error) string {
 }
 
 func capBound(mb int) int {
-	if b := 4 * (mb + 2); b > 4096 {
+	if b := 4 * mb; b > 4096 {
 		return b
 	}
 	return 4096
@@ -580,12 +580,7 @@ func oracle(c cfg, res runResult, o *vu.Out) {
 		}
 		if c.maxBuf > 0 {
 			if len(t.raw) > c.maxBuf {
-				if t.tt == html.CommentToken && bytes.HasPrefix(t.raw, []byte("<!")) && len(t.raw) <= c.maxBuf+2 {
-					o.Stat("finding:maxbuf-overshoot-markup-decl")
-					o.Fail("maxbuf-overshoot-markup-decl", fmt.Sprintf("token %d %v Raw()=%q is %d bytes > maxBuf: %s", i, t.tt, t.raw, len(t.raw), in))
-				} else {
-					o.Fail("maxbuf-exceeded", fmt.Sprintf("token %d %v Raw()=%q is %d bytes > maxBuf: %s", i, t.tt, t.raw, len(t.raw), in))
-				}
+				o.Fail("maxbuf-exceeded", fmt.Sprintf("token %d %v Raw()=%q is %d bytes > maxBuf: %s", i, t.tt, t.raw, len(t.raw), in))
 			}
 			if t.cap > capBound(c.maxBuf) {
 				o.Fail("cap-exceeded", fmt.Sprintf("cap(z.buf)=%d after token %d: %s", t.cap, i, in))
